@@ -801,6 +801,94 @@ func runC04Grammar(c *Ctx) {
 			c.bad(construct, fn.Pos(), fmt.Sprintf("the %s derives `%s` but %s (sentential form; <x:first> is any sentence of x starting with one of the tokens)", who, strings.Join(word[:len(word)-1], " "), other))
 		}
 	}
+	// progress (used by C01.LOOP / C01.REC): no cycle of a production without a letter, no production that starts with itself
+	firstOf := map[string]map[string]bool{}
+	for _, key := range keys {
+		if key == startKey {
+			continue // Parse's only loop reads the left-over tokens from the lexer: C01.LOOP (token loop)
+		}
+		a := m.nts[key]
+		fnName := key[:strings.Index(key, "|")]
+		// epsilon closure graph
+		epsSucc := map[int][]int{}
+		for _, e := range a.edges {
+			if e.eps {
+				epsSucc[e.from] = append(epsSucc[e.from], e.to)
+			}
+		}
+		cyc := false
+		color := map[int]int{}
+		var dfs func(n int)
+		dfs = func(n int) {
+			color[n] = 1
+			for _, t := range epsSucc[n] {
+				if color[t] == 1 {
+					cyc = true
+				} else if color[t] == 0 {
+					dfs(t)
+				}
+			}
+			color[n] = 2
+		}
+		for n := 0; n < a.n; n++ {
+			if color[n] == 0 {
+				dfs(n)
+			}
+		}
+		construct := fmt.Sprintf("(*ExprParser).%s|progress (look-ahead %s)", fnName, m.tk.str(kindsetOfKey(key)))
+		fn := p.Method("ExprParser", fnName)
+		if cyc {
+			c.bad(construct, fn.Pos(), "a loop of this parse function can iterate without consuming a token or calling a sub-parser: the parser does not terminate on some input")
+		} else {
+			c.ok(construct, fn.Pos(), "every cycle of the automaton consumes a token or parses a sub-expression")
+		}
+		// first symbols
+		reach := map[int]bool{a.start: true}
+		for changed := true; changed; {
+			changed = false
+			for _, e := range a.edges {
+				if e.eps && reach[e.from] && !reach[e.to] {
+					reach[e.to] = true
+					changed = true
+				}
+			}
+		}
+		for _, e := range a.edges {
+			if !e.eps && !e.s.term && reach[e.from] {
+				if firstOf[fnName] == nil {
+					firstOf[fnName] = map[string]bool{}
+				}
+				firstOf[fnName][e.s.nt] = true
+			}
+		}
+	}
+	{
+		color := map[string]int{}
+		var cycle []string
+		var dfs func(n string)
+		dfs = func(n string) {
+			color[n] = 1
+			for t := range firstOf[n] {
+				if color[t] == 1 {
+					cycle = append(cycle, n+" -> "+t)
+				} else if color[t] == 0 {
+					dfs(t)
+				}
+			}
+			color[n] = 2
+		}
+		for _, n := range sortedKeys(firstOf) {
+			if color[n] == 0 {
+				dfs(n)
+			}
+		}
+		if len(cycle) == 0 {
+			c.ok("(*ExprParser)|no left recursion", parse.Pos(), "no parse function can reach itself without consuming a token: the recursion is bounded by the number of tokens")
+		} else {
+			sort.Strings(cycle)
+			c.bad("(*ExprParser)|no left recursion", parse.Pos(), "a parse function reaches itself before consuming a token (unbounded recursion): "+strings.Join(cycle, "; "))
+		}
+	}
 	for n := range refGrammar {
 		if !covered[n] {
 			c.bad("(*ExprParser)."+n+"|production", parse.Pos(), "the documented production is not reachable from Parse")
@@ -1156,4 +1244,10 @@ func runC04Num(c *Ctx) {
 			c.bad("(*ExprParser)."+t.fn+"|conversion", fn.Pos(), "the token text is not converted with "+t.conv)
 		}
 	}
+}
+
+func kindsetOfKey(key string) kindset {
+	var ctx kindset
+	fmt.Sscanf(key[strings.Index(key, "|")+1:], "%d", &ctx)
+	return ctx
 }
